@@ -601,7 +601,7 @@ impl Transformer {
     ) -> Result<()> {
         let mut new_svg_attrs = AttrMap::new();
         let mut orig_svg_attrs = HashMap::new();
-        if let OutputEvent::Start(orig_svg) = first_svg {
+        if let OutputEvent::Start(orig_svg) | OutputEvent::Empty(orig_svg) = first_svg {
             new_svg_attrs = orig_svg.attrs.clone();
             orig_svg_attrs = orig_svg.get_attrs();
         }
@@ -754,8 +754,12 @@ impl Transformer {
         }
 
         let mut has_svg_element = false;
+        let mut close_root = false;
         if let (pre_svg, Some(first_svg), remain) = events.partition("svg") {
             pre_svg.write_to(writer)?;
+            // The root is always written as a start tag (generated content follows it),
+            // so an empty-element root `<svg/>` needs its end tag adding.
+            close_root = matches!(first_svg, OutputEvent::Empty(_));
             self.write_root_svg(first_svg, bbox, writer)?;
             events = remain;
             has_svg_element = true;
@@ -781,6 +785,14 @@ impl Transformer {
         // i.e. this is a full SVG document rather than a fragment.
         if has_svg_element && self.context.config.add_auto_styles {
             self.write_auto_styles(&mut events, writer)?;
+        }
+
+        if close_root {
+            OutputList::from(vec![
+                OutputEvent::Text("\n".to_owned()),
+                OutputEvent::End("svg".to_owned()),
+            ])
+            .write_to(writer)?;
         }
 
         events.write_to(writer)
